@@ -111,7 +111,8 @@ Definition owner (q : list cmd) (n : nat) : option nat :=
 Inductive effect :=
 | ETaint (n : nat) | ECond (n : nat)
 | ECreate (k j : nat) (marked : bool)   (* marked: a candidate already carried the deletion mark when the replacement was created *)
-| EDelete (n : nat) (ready : bool)      (* ready: every replacement existed in the API and was Initialized at the call *)
+| EDelete (n : nat) (api st : bool)     (* at the call, every replacement: [api] existed in the API and was Initialized;
+                                           [st] was tracked by the cluster state (Cluster.NodeClaimExists) *)
 | EUntaint (n : nat) | EClear (n : nat).
 
 Inductive ret :=
@@ -217,14 +218,17 @@ Definition retry_ms (q : list cmd) : Z :=
   Z.max 600000 (Z.min 3600000 (80 * Z.of_nat (map_size q))).
 
 (* the loop over cmd.Replacements: returns the new latches, whether some replacement is still
-   waited for, and whether one was found deleted (NotFound and unknown to the cluster state: the
-   loop returns at once, later replacements are not looked at) *)
+   waited for, and whether one was found deleted (the loop returns at once, later replacements are not
+   looked at): a replacement already latched Initialized must still be tracked by the cluster state
+   (since 61c12d2bd); an unlatched one is read from the API, NotFound and unknown to the cluster state
+   means deleted *)
 Fixpoint wait_loop (renv : nat -> repl) (fget : list (nat * gfault)) (j : nat) (latched : list bool)
   : list bool * bool * bool :=
   match latched with
   | [] => ([], false, false)
   | true :: rest =>
-      let '(l, w, v) := wait_loop renv fget (S j) rest in (true :: l, w, v)
+      if r_st (renv j) then let '(l, w, v) := wait_loop renv fget (S j) rest in (true :: l, w, v)
+      else (true :: rest, false, true)
   | false :: rest =>
       let r := renv j in
       let found := match lookup fget j with
@@ -244,7 +248,7 @@ Fixpoint wait_loop (renv : nat -> repl) (fget : list (nat * gfault)) (j : nat) (
   end.
 
 (* the delete loop: retry.OnError around kubeClient.Delete, NotFound ignored *)
-Fixpoint delete_all (nodes : nat -> node) (fdel : fplan) (ready : bool) (cands : list nat) (deleted : list bool)
+Fixpoint delete_all (nodes : nat -> node) (fdel : fplan) (ready : bool * bool) (cands : list nat) (deleted : list bool)
   : (nat -> node) * list effect * list bool * bool :=
   match cands with
   | [] => (nodes, [], [], false)
@@ -253,7 +257,7 @@ Fixpoint delete_all (nodes : nat -> node) (fdel : fplan) (ready : bool) (cands :
       match call_result true (lookup fdel c) with
       | Applied =>
           let '(nodes1, e, dl, err) := delete_all (upd nodes c (set_del (nodes c) true)) fdel ready t (tl deleted) in
-          (nodes1, EDelete c ready :: e, true :: dl, err)
+          (nodes1, EDelete c (fst ready) (snd ready) :: e, true :: dl, err)
       | Skipped =>
           let '(nodes1, e, dl, err) := delete_all nodes fdel ready t (tl deleted) in (nodes1, e, d :: dl, err)
       | Failed =>
@@ -299,6 +303,9 @@ Definition replace_cmd (q : list cmd) (n : nat) (c' : cmd) : list cmd :=
 Definition all_ready (renv : nat -> repl) (nrepl : nat) : bool :=
   forallb (fun j => r_exists (renv j) && r_init (renv j)) (seq 0 nrepl).
 
+Definition all_tracked (renv : nat -> repl) (nrepl : nat) : bool :=
+  forallb (fun j => r_st (renv j)) (seq 0 nrepl).
+
 Definition recon (s : state) (n : nat) (fget : list (nat * gfault)) (fdel fut fcl : fplan)
   : state * (ret * list effect) :=
   match find (holds_node n) (s_q s) with
@@ -318,12 +325,13 @@ Definition recon (s : state) (n : nat) (fget : list (nat * gfault)) (fdel fut fc
       if vanished then fail (s_nodes s) []
       else if wait then (if timed then fail (s_nodes s) [] else requeue (s_nodes s) c1 [])
       else
-        let ready := all_ready (s_repl s (c_id c)) (length (c_latched c)) in
+        let ready := (all_ready (s_repl s (c_id c)) (length (c_latched c)),
+                      all_tracked (s_repl s (c_id c)) (length (c_latched c))) in
         let '(nodes1, e, deleted', derr) := delete_all (s_nodes s) fdel ready (c_cands c) (c_deleted c) in
         let c2 := mkCmd (c_id c) (c_cands c) latched' deleted' (c_created c) in
-        (* the deferred wrapper: past the timeout EVERY result, including success, becomes unrecoverable *)
-        if timed then fail nodes1 e
-        else if derr then requeue nodes1 c2 e
+        (* the deferred wrapper: past the timeout an ERROR becomes unrecoverable (since 14eb43d3c a pass that
+           deleted every candidate is a success whatever the clock says) *)
+        if derr then (if timed then fail nodes1 e else requeue nodes1 c2 e)
         else (mkState (s_n s) nodes1 (remove_cmd (s_q s) n) (s_keys s) (s_repl s) (s_now s) (s_next s), (RSucceeded, e))
   end.
 
@@ -365,8 +373,8 @@ Definition step (s : state) (o : op) : state * (ret * list effect) :=
       (env_repl s k j (fun r => if r_exists r then mkRepl true true (r_launched r) (r_st r) else r), (EnvOk, []))
   | ReplDelApi k j =>   (* the NodeClaim disappears from the API (ICE, liveness, expiry, user) *)
       (env_repl s k j (fun r => mkRepl false (r_init r) (r_launched r) (r_st r)), (EnvOk, []))
-  | ReplDelState k j => (* the informer delivers the deletion: Cluster.DeleteNodeClaim *)
-      (env_repl s k j (fun r => mkRepl (r_exists r) (r_init r) (r_launched r) false), (EnvOk, []))
+  | ReplDelState k j => (* the informer delivers the deletion (only of an object that is gone): Cluster.DeleteNodeClaim *)
+      (env_repl s k j (fun r => if r_exists r then r else mkRepl false (r_init r) (r_launched r) false), (EnvOk, []))
   | Deliver =>          (* the informers deliver the candidates' current API objects *)
       (mkState (s_n s) (fun x => set_stdel (s_nodes s x) (n_del (s_nodes s x))) (s_q s) (s_keys s) (s_repl s) (s_now s) (s_next s),
        (EnvOk, []))
@@ -420,8 +428,8 @@ Definition sn_fact (sn : snap) (n : nat) : node := fst (fst (sn_node sn n)).
 Definition sn_mview (sn : snap) (n : nat) : bool := snd (fst (sn_node sn n)).
 Definition sn_owner (sn : snap) (n : nat) : option nat := snd (sn_node sn n).
 
-Definition deletes (e : list effect) : list (nat * bool) :=
-  flat_map (fun x => match x with EDelete n r => [(n, r)] | _ => [] end) e.
+Definition deletes (e : list effect) : list (nat * bool * bool) :=
+  flat_map (fun x => match x with EDelete n a t => [(n, a, t)] | _ => [] end) e.
 
 Definition repl_inited (sn : snap) (k j : nat) : bool :=
   existsb (fun x => let '(k', j', r) := x in (k' =? k) && (j' =? j) && r_init r) (sn_repls sn).
@@ -430,25 +438,30 @@ Definition repl_inited (sn : snap) (k j : nat) : bool :=
 Definition cmds_of (sn : snap) (n : nat) : list cmd := filter (holds_node n) (sn_cmds sn).
 
 (* (1) a candidate's NodeClaim is deleted only by the command that holds it, and only when every
-   replacement of that command has been created and has reported Initialized *)
+   replacement of that command has been created, has reported Initialized, and is still tracked by the
+   cluster state at the Delete call *)
 Definition del_after_init (x : ostep) : Prop :=
   let '(pre, _, o) := x in
-  forall n r, In (n, r) (deletes (o_eff o)) ->
+  forall n a t, In (n, a, t) (deletes (o_eff o)) ->
+    t = true /\
     exists c, In c (sn_cmds pre) /\ In n (c_cands c) /\
       forall j, j < length (c_latched c) -> repl_inited pre (c_id c) j = true.
 
 Definition del_after_init_b (x : ostep) : bool :=
   let '(pre, _, o) := x in
-  forallb (fun nr => existsb (fun c => mem (fst nr) (c_cands c) &&
+  forallb (fun nr => snd nr &&
+                     existsb (fun c => mem (fst (fst nr)) (c_cands c) &&
                                         forallb (fun j => repl_inited pre (c_id c) j) (seq 0 (length (c_latched c))))
                              (sn_cmds pre))
           (deletes (o_eff o)).
 
-(* (1') the stronger reading: at the Delete call every replacement still exists and is Initialized *)
+(* (1') the reading against the API itself: at the Delete call every replacement exists in the API and is
+   Initialized.  This can only hold up to informer lag (the queue re-checks latched replacements against
+   the cluster state), see [deliveries_done]. *)
 Definition del_while_ready (x : ostep) : Prop :=
-  let '(_, _, o) := x in forall n r, In (n, r) (deletes (o_eff o)) -> r = true.
+  let '(_, _, o) := x in forall n a t, In (n, a, t) (deletes (o_eff o)) -> a = true.
 Definition del_while_ready_b (x : ostep) : bool :=
-  let '(_, _, o) := x in forallb snd (deletes (o_eff o)).
+  let '(_, _, o) := x in forallb (fun nr => snd (fst nr)) (deletes (o_eff o)).
 
 Definition recon_node (o : op) : option nat := match o with Recon n _ _ _ _ => Some n | _ => None end.
 Definition is_failed (r : ret) : bool := match r with RFailed => true | _ => false end.
@@ -563,3 +576,81 @@ Definition one_cmd_per_node_b (x : ostep) : bool :=
           (seq 0 (length (sn_nodes (o_snap o)))) &&
   (negb (is_started (o_ret o)) ||
    forallb (fun n => match sn_owner pre n with None => true | Some _ => false end) (start_cands op)).
+
+(* ------------------------------------------------------------------ guards of the partial theorems *)
+
+(* the deletion of every replacement of the reconciled command that is gone from the API has been
+   delivered to the cluster state *)
+Definition deliveries_done (x : ostep) : Prop :=
+  let '(pre, op, _) := x in
+  forall n c, recon_node op = Some n -> In c (cmds_of pre n) ->
+    forall j r, j < length (c_latched c) -> In (c_id c, j, r) (sn_repls pre) -> r_exists r = false -> r_st r = false.
+
+(* no Delete call of the step fails on all its attempts *)
+Definition fails (f : fault) : bool := match call_result true (Some f) with Failed => true | _ => false end.
+Definition nofail_op (o : op) : bool :=
+  match o with Recon _ _ fdel _ _ => forallb (fun kv => negb (fails (snd kv))) fdel | _ => true end.
+
+(* ------------------------------------------------------------------ the queue before the two fixes
+   (14eb43d3c: the deferred timeout wrapper also wrapped a nil error; 61c12d2bd: a latched replacement was
+   never looked at again).  Kept so that the two defects stay stated and refuted. *)
+
+Fixpoint wait_loop_old (renv : nat -> repl) (fget : list (nat * gfault)) (j : nat) (latched : list bool)
+  : list bool * bool * bool :=
+  match latched with
+  | [] => ([], false, false)
+  | true :: rest =>
+      let '(l, w, v) := wait_loop_old renv fget (S j) rest in (true :: l, w, v)
+  | false :: rest =>
+      let r := renv j in
+      let found := match lookup fget j with
+                   | Some GErr => None
+                   | Some GNotFound => Some false
+                   | None => Some (r_exists r)
+                   end in
+      match found with
+      | None => let '(l, w, v) := wait_loop_old renv fget (S j) rest in (false :: l, true, v)
+      | Some false =>
+          if r_st r then let '(l, w, v) := wait_loop_old renv fget (S j) rest in (false :: l, true, v)
+          else (false :: rest, false, true)
+      | Some true =>
+          if r_init r then let '(l, w, v) := wait_loop_old renv fget (S j) rest in (true :: l, w, v)
+          else let '(l, w, v) := wait_loop_old renv fget (S j) rest in (false :: l, true, v)
+      end
+  end.
+
+Definition recon_old (s : state) (n : nat) (fget : list (nat * gfault)) (fdel fut fcl : fplan)
+  : state * (ret * list effect) :=
+  match find (holds_node n) (s_q s) with
+  | None => (s, (RNoCmd, []))
+  | Some c =>
+      let timed := (retry_ms (s_q s) <? s_now s - c_created c)%Z in
+      let '(latched', wait, vanished) := wait_loop_old (s_repl s (c_id c)) fget 0 (c_latched c) in
+      let fail (nodes : nat -> node) (e : list effect) :=
+        let '(nodes1, e1, _) := untaint_all nodes fut (c_cands c) in
+        let '(nodes2, e2, _) := clear_all nodes1 fcl (c_cands c) in
+        (mkState (s_n s) (mark_set nodes2 (c_cands c) false) (remove_cmd (s_q s) n) (s_keys s) (s_repl s) (s_now s) (s_next s),
+         (RFailed, e ++ e1 ++ e2)) in
+      let requeue (nodes : nat -> node) (c' : cmd) (e : list effect) :=
+        (mkState (s_n s) nodes (replace_cmd (s_q s) n c') (s_keys s) (s_repl s) (s_now s) (s_next s), (RRequeue, e)) in
+      let c1 := mkCmd (c_id c) (c_cands c) latched' (c_deleted c) (c_created c) in
+      if vanished then fail (s_nodes s) []
+      else if wait then (if timed then fail (s_nodes s) [] else requeue (s_nodes s) c1 [])
+      else
+        let ready := (all_ready (s_repl s (c_id c)) (length (c_latched c)),
+                      all_tracked (s_repl s (c_id c)) (length (c_latched c))) in
+        let '(nodes1, e, deleted', derr) := delete_all (s_nodes s) fdel ready (c_cands c) (c_deleted c) in
+        let c2 := mkCmd (c_id c) (c_cands c) latched' deleted' (c_created c) in
+        if timed then fail nodes1 e
+        else if derr then requeue nodes1 c2 e
+        else (mkState (s_n s) nodes1 (remove_cmd (s_q s) n) (s_keys s) (s_repl s) (s_now s) (s_next s), (RSucceeded, e))
+  end.
+
+Definition step_old (s : state) (o : op) : state * (ret * list effect) :=
+  match o with Recon n fget fdel fut fcl => recon_old s n fget fdel fut fcl | _ => step s o end.
+
+Fixpoint trace_old (s : state) (ops : list op) : list ostep :=
+  match ops with
+  | [] => []
+  | o :: t => let '(s', (r, e)) := step_old s o in (snap_of s, o, mkObs r e (snap_of s')) :: trace_old s' t
+  end.
